@@ -298,3 +298,247 @@ Proof.
     apply in_map_iff in Hx. destruct Hx as [c [<- _]]. reflexivity. }
   destruct b; try contradiction; cbn [doc_block] in H; eapply G; eauto.
 Qed.
+
+(** * From scopes to the windows of the semantic constraints *)
+Lemma Forall2_imp : forall {A B} (R1 R2 : A -> B -> Prop), (forall a b, R1 a b -> R2 a b) ->
+  forall l1 l2, Forall2 R1 l1 l2 -> Forall2 R2 l1 l2.
+Proof. intros A B R1 R2 H l1 l2 F. induction F; constructor; auto. Qed.
+
+(** the kinds of semantic constraint that carry windows *)
+Definition windowed (k : ckind) : bool :=
+  match k with
+  | KAtMost _ | KAtLeast _ | KExactlyInARow _ | KExactlyK _ | KPin _ _ => true
+  | _ => false
+  end.
+
+(** what the kind of a semantic constraint keeps of the program constraint it came from
+    ([scale]: the trial-group scale of its scope, 1 outside a Nest) *)
+Definition src_kind (bd : blockdoc) (c : pcons) (scale : nat) (kk : ckind) : Prop :=
+  match c with
+  | PKRow kd k _ => kk = krow_kind kd k scale
+  | PPin i f _ => kk = KPin i (sustain_get bd f)
+  | _ => windowed kk = false
+  end.
+
+(** semantic constraint [k] comes from program constraint [fst csc], whose scope [snd csc] inside a
+    block of [Tsrc] trials has windows [base] and scale [scale]; in the whole sequence its windows
+    are [W base] and its scale [Sc scale] *)
+Definition scoped (bd : blockdoc) (Tsrc : nat) (W : list (nat * nat) -> list (nat * nat)) (Sc : nat -> nat)
+           (csc : pcons * scope) (k : dconstraint) : Prop :=
+  exists base scale,
+    scope_windows (snd csc) Tsrc = Ok (base, scale) /\
+    src_kind bd (fst csc) (Sc scale) (k_kind k) /\
+    k_windows k = if windowed (k_kind k) then W base else [].
+
+(** the whole sequence *)
+Definition global_scope (bd : blockdoc) (T : nat) (c : pcons) (k : dconstraint) : Prop :=
+  src_kind bd c 1 (k_kind k) /\ k_windows k = if windowed (k_kind k) then [(0, T)] else [].
+
+(** the constraint [doc_sem] adds when a crossing that must be complete cannot be *)
+Definition marker (ds : docsem) : list dconstraint :=
+  if ds_unsat ds && nonempty (ds_forder ds)
+  then [{| k_kind := KExactlyK (ds_T ds + 1); k_factor := 0; k_level := 0; k_windows := [(0, ds_T ds)] |}]
+  else [].
+
+Lemma expand_constraint_src : forall p c cs c', expand_constraint p c = Ok cs -> In c' cs ->
+  forall bd scale kk, src_kind bd c' scale kk -> src_kind bd c scale kk.
+Proof.
+  intros p c cs c' H Hin bd scale kk Hs. destruct c as [kd k tg|f n|ix f n|f|fs|n| |kind]; cbn [expand_constraint] in H;
+    try (inversion H; subst; destruct Hin as [<-|[]]; exact Hs).
+  inv_bind H as u Hu H. destruct tg as [f n|f].
+  - inversion H; subst. destruct Hin as [<-|[]]. exact Hs.
+  - inv_bind H as fd Hfd H. inv_bind H as ns Hns H. inversion H; subst. apply in_map_iff in Hin.
+    destruct Hin as [n [<- _]]. exact Hs.
+Qed.
+
+Lemma sem_constraint_scoped : forall p bd forder maxp T c sc ks k,
+  sem_constraint p bd forder maxp T c sc = Ok ks -> In k ks ->
+  scoped bd T (fun base => base) (fun s => s) (c, sc) k.
+Proof.
+  intros p bd forder maxp T c sc ks k H Hk. unfold sem_constraint in H.
+  inv_bind H as wsc Hws H. destruct wsc as [wins scale]. exists wins, scale. cbn [fst snd]. split; [exact Hws|].
+  destruct c as [kd k0 [fid ln|fid]|fid ln|ix fid ln|fid|fids|n| |kind]; try discriminate.
+  - inv_bind H as pf Hpf H. inv_bind H as li Hli H. inversion H; subst. destruct Hk as [<-|[]]. cbn.
+    split; [reflexivity|]. destruct kd; reflexivity.
+  - inv_bind H as pf Hpf H. inv_bind H as li Hli H. inversion H; subst. destruct Hk as [<-|[]]. cbn. split; reflexivity.
+  - inv_bind H as pf Hpf H. inv_bind H as li Hli H. inversion H; subst. destruct Hk as [<-|[]]. cbn. split; reflexivity.
+  - inv_bind H as pf Hpf H. inversion H; subst. destruct Hk as [<-|[]]. cbn. split; reflexivity.
+  - destruct fids as [|f0 [|f1 fr]]; try (inversion H; subst; contradiction).
+    inv_bind H as lens Hl H. inv_bind H as main Hm H. inv_bind H as others Ho H. inv_bind H as pm Hpm H.
+    inversion H; subst. destruct Hk as [<-|[]]. cbn. split; reflexivity.
+  - inversion H; subst. contradiction.
+  - inversion H; subst. contradiction.
+Qed.
+
+(** the constraints of the semantic normal form, grouped by the program constraint they come from *)
+Theorem sem_of_block_constraints : forall p bd ds,
+  sem_of_block p bd = Ok ds ->
+  exists kss,
+    s_constraints (ds_sem ds) = List.concat kss ++ marker ds /\
+    Forall2 (fun csc ks => forall k, In k ks -> scoped bd (b_T bd) (fun base => base) (fun s => s) csc k)
+            (b_constraints bd) kss.
+Proof.
+  intros p bd ds H. unfold sem_of_block in H.
+  inv_bind H as kinds Hk H. destruct (negb _); [discriminate|].
+  inv_bind H as depths Hd H. set (forder := map fst (sort_by _ depths)) in *.
+  inv_bind H as factors Hf H. inv_bind H as crossings Hx H. inv_bind H as constraints Hc H.
+  inversion H; subst; clear H. exists constraints. split; [reflexivity|].
+  apply mapM_ok in Hc. eapply Forall2_imp; [|exact Hc]. cbn beta. intros csc ks Hks k Hin.
+  inv_bind Hks as cs Hcs Hks. inv_bind Hks as kss Hkss Hks. inversion Hks; subst.
+  apply in_concat in Hin. destruct Hin as [ks' [Hks' Hin]].
+  destruct (mapM_in _ _ _ _ Hkss Hks') as [c [Hc' Hsc]].
+  destruct (sem_constraint_scoped _ _ _ _ _ _ _ _ _ Hsc Hin) as [base [scale [W1 [W2 W3]]]].
+  exists base, scale. cbn [fst snd] in *. split; [exact W1|]. split; [|exact W3].
+  eapply expand_constraint_src; eauto.
+Qed.
+
+Lemma Forall2_map_l : forall {A B C} (R : B -> C -> Prop) (g : A -> B) l l',
+  Forall2 R (map g l) l' -> Forall2 (fun x y => R (g x) y) l l'.
+Proof.
+  intros A B C R g l. induction l as [|x l IH]; intros l' H; inversion H; subst; constructor; [assumption|].
+  apply IH. assumption.
+Qed.
+
+(** combinator constraints: one window, the whole sequence *)
+Lemma own_global : forall bd T cs kss,
+  Forall2 (fun csc ks => forall k, In k ks -> scoped bd T (fun base => base) (fun s => s) csc k) (own_constraints cs) kss ->
+  Forall2 (fun c ks => forall k : dconstraint, In k ks -> global_scope bd T c k)
+          (filter (fun c => negb (is_min_trials c)) cs) kss.
+Proof.
+  intros bd T cs kss H. unfold own_constraints in H. apply Forall2_map_l in H.
+  eapply Forall2_imp; [|exact H]. cbn beta. intros c ks Hks k Hin.
+  destruct (Hks k Hin) as [base [scale [W1 [W2 W3]]]]. cbn [fst snd scope_windows] in *.
+  inversion W1; subst. split; assumption.
+Qed.
+
+(** inherited constraints: the repetition windows of the block they were given to *)
+Lemma inherit_rep : forall bd T inner kss,
+  Forall2 (fun csc ks => forall k, In k ks -> scoped bd T (fun base => base) (fun s => s) csc k) (inherit inner 0) kss ->
+  Forall2 (fun csc ks => forall k : dconstraint, In k ks ->
+             b_P inner < b_T inner /\
+             scoped bd (b_T inner) (fun base => rep_closed base (b_T inner - b_P inner) T (b_P inner) 0) (fun s => s) csc k)
+          (b_constraints inner) kss.
+Proof.
+  intros bd T inner kss H. unfold inherit in H. apply Forall2_map_l in H.
+  eapply Forall2_imp; [|exact H]. cbn beta. intros csc ks Hks k Hin.
+  destruct (Hks k Hin) as [ws [scale [W1 [W2 W3]]]]. cbn [fst snd] in *.
+  apply scope_windows_rep_inv in W1. destruct W1 as [base [B1 [B2 B3]]]. split; [exact B2|].
+  exists base, scale. split; [exact B1|]. split; [exact W2|]. rewrite W3, B3. reflexivity.
+Qed.
+
+(** the windows of a scope inside the outer block, in trials of the nest *)
+Definition scale_windows (n : nat) (base : list (nat * nat)) : list (nat * nat) :=
+  map (fun ab => (fst ab * n, snd ab * n)) base.
+
+Lemma inherit_scaled_rep : forall bd T outer n kss, 0 < n ->
+  Forall2 (fun csc ks => forall k, In k ks -> scoped bd T (fun base => base) (fun s => s) csc k) (inherit_scaled outer n) kss ->
+  Forall2 (fun csc ks => forall k : dconstraint, In k ks ->
+             0 < b_T outer /\
+             scoped bd (b_T outer) (fun base => rep_closed (scale_windows n base) (b_T outer * n) T 0 0) (fun s => s * n) csc k)
+          (b_constraints outer) kss.
+Proof.
+  intros bd T outer n kss Hn H. unfold inherit_scaled in H. apply Forall2_map_l in H.
+  eapply Forall2_imp; [|exact H]. cbn beta. intros csc ks Hks k Hin.
+  destruct (Hks k Hin) as [ws [scale [W1 [W2 W3]]]]. cbn [fst snd] in *.
+  apply scope_windows_rep_inv in W1. destruct W1 as [base' [B1 [B2 B3]]].
+  cbn [scope_windows] in B1. rewrite Nat.div_mul in B1 by lia. inv_bind B1 as bs Hbs B1. destruct bs as [base sc0].
+  inversion B1; subst. split; [nia|].
+  exists base, sc0. split; [exact Hbs|]. split; [exact W2|]. rewrite W3, Nat.sub_0_r. reflexivity.
+Qed.
+
+(** ** Repeat and Merge of one block *)
+Lemma rep_scope_generic : forall p bd inner cs ds,
+  b_constraints bd = inherit inner 0 ++ own_constraints cs -> sem_of_block p bd = Ok ds ->
+  exists kss_b kss_c,
+    s_constraints (ds_sem ds) = List.concat kss_b ++ List.concat kss_c ++ marker ds /\
+    Forall2 (fun csc ks => forall k : dconstraint, In k ks ->
+               b_P inner < b_T inner /\
+               scoped (ds_block ds) (b_T inner)
+                      (fun base => rep_closed base (b_T inner - b_P inner) (ds_T ds) (b_P inner) 0) (fun s => s) csc k)
+            (b_constraints inner) kss_b /\
+    Forall2 (fun c ks => forall k : dconstraint, In k ks -> global_scope (ds_block ds) (ds_T ds) c k)
+            (filter (fun c => negb (is_min_trials c)) cs) kss_c.
+Proof.
+  intros p bd inner cs ds Hcs H.
+  pose proof (sem_of_block_block _ _ _ H) as Hb.
+  assert (HT : ds_T ds = b_T bd).
+  { unfold sem_of_block in H. inv_bind H as kinds Hk H. destruct (negb _); [discriminate|].
+    inv_bind H as depths Hd H. inv_bind H as factors Hf H. inv_bind H as crossings Hx H. inv_bind H as constraints Hc H.
+    inversion H; reflexivity. }
+  destruct (sem_of_block_constraints _ _ _ H) as [kss [E F]]. rewrite Hcs in F.
+  apply Forall2_app_inv_l in F. destruct F as [kss_b [kss_c [Fb [Fc ->]]]].
+  exists kss_b, kss_c. rewrite Hb, HT. split; [rewrite E, concat_app, <- app_assoc; reflexivity|].
+  split; [apply inherit_rep; exact Fb|apply own_global; exact Fc].
+Qed.
+
+Theorem repeat_scope : forall p b cs inner ds,
+  doc_block p b = Ok inner -> doc_sem_block p (PRepeat b cs) = Ok ds ->
+  exists kss_b kss_c,
+    s_constraints (ds_sem ds) = List.concat kss_b ++ List.concat kss_c ++ marker ds /\
+    Forall2 (fun csc ks => forall k : dconstraint, In k ks ->
+               b_P inner < b_T inner /\
+               scoped (ds_block ds) (b_T inner)
+                      (fun base => rep_closed base (b_T inner - b_P inner) (ds_T ds) (b_P inner) 0) (fun s => s) csc k)
+            (b_constraints inner) kss_b /\
+    Forall2 (fun c ks => forall k : dconstraint, In k ks -> global_scope (ds_block ds) (ds_T ds) c k)
+            (filter (fun c => negb (is_min_trials c)) cs) kss_c.
+Proof.
+  intros p b cs inner ds Hb H. unfold doc_sem_block in H. inv_bind H as bd Hbd H.
+  eapply rep_scope_generic; [eapply repeat_constraints; eauto|exact H].
+Qed.
+
+Theorem merge1_scope : forall p b cs mode al inner ds,
+  doc_block p b = Ok inner -> doc_sem_block p (PMerge [b] cs mode al) = Ok ds ->
+  exists kss_b kss_c,
+    s_constraints (ds_sem ds) = List.concat kss_b ++ List.concat kss_c ++ marker ds /\
+    Forall2 (fun csc ks => forall k : dconstraint, In k ks ->
+               b_P inner < b_T inner /\
+               scoped (ds_block ds) (b_T inner)
+                      (fun base => rep_closed base (b_T inner - b_P inner) (ds_T ds) (b_P inner) 0) (fun s => s) csc k)
+            (b_constraints inner) kss_b /\
+    Forall2 (fun c ks => forall k : dconstraint, In k ks -> global_scope (ds_block ds) (ds_T ds) c k)
+            (filter (fun c => negb (is_min_trials c)) cs) kss_c.
+Proof.
+  intros p b cs mode al inner ds Hb H. unfold doc_sem_block in H. inv_bind H as bd Hbd H.
+  eapply rep_scope_generic; [eapply merge1_constraints; eauto|exact H].
+Qed.
+
+(** ** Nest *)
+Theorem nest_scope : forall p o i cs al outer inner ds,
+  doc_block p o = Ok outer -> doc_block p i = Ok inner -> doc_sem_block p (PNest o i cs al) = Ok ds ->
+  let n := b_T inner in
+  exists kss_o kss_i kss_c,
+    s_constraints (ds_sem ds) = List.concat kss_o ++ List.concat kss_i ++ List.concat kss_c ++ marker ds /\
+    (* outer constraints: scaled by n, one window group per repetition of the scaled outer block *)
+    Forall2 (fun csc ks => forall k : dconstraint, In k ks ->
+               scoped (ds_block ds) (b_T outer)
+                      (fun base => rep_closed (scale_windows n base) (b_T outer * n) (ds_T ds) 0 0) (fun s => s * n) csc k)
+            (b_constraints outer) kss_o /\
+    (* inner constraints: within each group of n trials *)
+    Forall2 (fun csc ks => forall k : dconstraint, In k ks ->
+               scoped (ds_block ds) n (fun base => rep_closed base n (ds_T ds) 0 0) (fun s => s) csc k)
+            (b_constraints inner) kss_i /\
+    (* constraints of the Nest itself: the whole sequence *)
+    Forall2 (fun c ks => forall k : dconstraint, In k ks -> global_scope (ds_block ds) (ds_T ds) c k)
+            (filter (fun c => negb (is_min_trials c)) cs) kss_c.
+Proof.
+  intros p o i cs al outer inner ds Ho Hi H n. unfold doc_sem_block in H. inv_bind H as bd Hbd H.
+  destruct (nest_constraints _ _ _ _ _ _ _ _ Ho Hi Hbd) as [Po [Pi Hcs]].
+  destruct (doc_block_inv _ _ _ Hi) as [Hn _].
+  pose proof (sem_of_block_block _ _ _ H) as Hb.
+  assert (HT : ds_T ds = b_T bd).
+  { unfold sem_of_block in H. inv_bind H as kinds Hk H. destruct (negb _); [discriminate|].
+    inv_bind H as depths Hd H. inv_bind H as factors Hf H. inv_bind H as crossings Hx H. inv_bind H as constraints Hc H.
+    inversion H; reflexivity. }
+  destruct (sem_of_block_constraints _ _ _ H) as [kss [E F]]. rewrite Hcs in F.
+  apply Forall2_app_inv_l in F. destruct F as [kss_o [kss' [Fo [F ->]]]].
+  apply Forall2_app_inv_l in F. destruct F as [kss_i [kss_c [Fi [Fc ->]]]].
+  exists kss_o, kss_i, kss_c. rewrite Hb, HT.
+  split; [rewrite E, !concat_app, <- !app_assoc; reflexivity|].
+  split; [|split].
+  - apply (inherit_scaled_rep bd (b_T bd) outer n kss_o Hn) in Fo.
+    eapply Forall2_imp; [|exact Fo]. cbn beta. intros csc ks Hks k Hin. apply (Hks k Hin).
+  - apply inherit_rep in Fi. eapply Forall2_imp; [|exact Fi]. cbn beta. intros csc ks Hks k Hin.
+    destruct (Hks k Hin) as [_ S]. rewrite Pi, Nat.sub_0_r in S. exact S.
+  - apply own_global. exact Fc.
+Qed.
